@@ -227,6 +227,13 @@ func (c *Ctx) writesThrough(fn *ssa.Function, seeds []ssa.Value, tag string, see
 			if derived[x.Addr] {
 				wrote, where = true, P.Pos(x.Pos())
 			}
+			// a library object that keeps a slice it was handed (bufio.Scanner.Buffer, bytes.NewBuffer, ...) goes on
+			// to write into that array: for a shared array that is a write
+			if derived[x.Val] && !P.IsProductFunc(fn) && isSliceLike(x.Val.Type()) {
+				if _, isLocal := x.Addr.(*ssa.Alloc); !isLocal {
+					wrote, where = true, P.Pos(x.Pos())+" (the slice is kept by "+FuncName(fn)+", which writes into it later)"
+				}
+			}
 		case *ssa.MapUpdate:
 			if derived[x.Map] {
 				wrote, where = true, P.Pos(x.Pos())
